@@ -575,6 +575,19 @@ pub fn on_paste_styles_select(&mut self, sheet: u32, range: [i32; 4], row_start:
 //@end
 }
 
+}
+/// the views a NEW worksheet is created with (Model::new_empty_worksheet): one per workbook view id, each with the selection on A1 — this is what
+/// backs the assumed clause "a new sheet arrives with on-grid views" of the Model::new_sheet / insert_sheet stubs above
+pub fn new_worksheet_views(view_ids: &[&u32]) -> (views: HashMap<u32, WorksheetView>)
+    ensures forall|k: u32| views@.contains_key(k) ==> view_ok(#[trigger] views@[k])
+{
+//@fragment base/src/new_empty.rs Model::new_empty_worksheet `let mut views = HashMap::new();` .. `left_column: 1,`
+//@loop 1 it
+            invariant forall|k: u32| views@.contains_key(k) ==> view_ok(#[trigger] views@[k])
+//@end
+    views
+}
+impl<'a> UserModel<'a> {
 // ---- undo / redo of the sheet-structure diffs: the selection is an existing sheet afterwards (C28: "undoing or redoing such changes
 // keep the selection on an existing sheet") ----
 pub proof fn lemma_inserted_views_ok(s0: Seq<Worksheet>, s1: Seq<Worksheet>, at: int)
